@@ -8,8 +8,8 @@ CC_PROPS = ["C01", "C02", "C05", "C06", "C08", "C09", "C11", "C12", "C13", "C14"
 
 TIERS = {
     # universe -> MaxEqs
-    "quick": {"U1": 2, "U2": 2, "U3": 2, "U4": 2, "U5": 2, "U6": 2, "U7": 3, "U8": 2, "U9": 3},
-    "thorough": {"U1": 3, "U2": 3, "U3": 3, "U4": 3, "U5": 3, "U6": 3, "U7": 4, "U8": 3, "U9": 4},
+    "quick": {"U1": 2, "U2": 2, "U3": 2, "U4": 2, "U5": 2, "U6": 2, "U7": 3, "U8": 2, "U9": 3, "U10": 2},
+    "thorough": {"U1": 3, "U2": 3, "U3": 3, "U4": 3, "U5": 3, "U6": 3, "U7": 4, "U8": 3, "U9": 4, "U10": 3},
 }
 
 
@@ -101,6 +101,73 @@ def cc_tables(tier, tag, pool_delta=0, with_random=True, with_matches=False):
                 out[k] = v
         log("TLC %d random universes (seed %d): %d states in %.1fs" %
             (len(jobs), seed(), sum(out[j[0]][2]["distinct"] for j in jobs), time.time() - t0))
+    return out
+
+
+SIM = {"quick": {"U1": (6, 10), "U4": (5, 8), "U9": (5, 6)},          # universe -> (depth = equations per history, number of histories)
+       "thorough": {"U1": (8, 60), "U2": (6, 30), "U3": (6, 30), "U4": (7, 40), "U5": (5, 20), "U7": (6, 20), "U9": (5, 20), "U10": (5, 10)}}
+
+
+def sim_tables(tier, tag):
+    """LONG histories: TLC -simulate walks random behaviours of SlottedCC with up to 5..8 equations (far beyond the
+    exhaustive bound of 2/3); every visited state is emitted as usual, the order in which TLC asserted the equations
+    is recovered from the successive keys.  Returns {uname+'sim': (uni, table_path, stats, states, universe_path)}
+    where table.json additionally holds "traces" (ordered equation lists) for cc_replay."""
+    import concurrent.futures
+    cfg = open(os.path.join(SPEC, "MC_CC.cfg")).read()
+
+    def one(item):
+        u, (depth, num) = item
+        uni = json.load(open(os.path.join(UNIV, u + ".json")))
+        depth = min(depth, len(uni["eqs"]))
+        defs = {"MCN": uni["N"], "MCTermPool": uni["terms"], "MCEqPool": uni["eqs"], "MCMaxEqs": depth,
+                "MCInsBase": tla_set(uni["base"]), "MCPatterns": []}
+        logp, st = run_tlc_root("%s_%s_sim" % (tag, u), "MC_CC", defs, cfg, timeout=3000, workers=1,
+                                simulate="num=%d" % num, extra=["-seed", str(1000 + seed()), "-aril", str(seed())])
+        # TLC ends a simulation run with rc 0 after num behaviours; each behaviour has depth+1 states
+        us = list(tlcout.tagged_lines(logp, "UNIVERSE"))[0]
+        recs = list(tlcout.tagged_lines(logp, "REPLAY"))
+        if not recs:
+            raise ToolError("TLC simulation of %s emitted no states" % u)
+        states, traces, cur, prev = {}, [], [], set()
+        for r in recs:
+            k = tuple(r["key"])
+            states.setdefault(k, r)
+            if len(k) == 0:
+                continue
+            new = set(k) - prev
+            if len(new) == 1 and set(k) >= prev and len(k) == len(prev) + 1:
+                cur.append(new.pop())          # successor of the previous line: the behaviour goes on
+            elif len(k) == 1:
+                traces.append(cur)             # TLC restarted from the initial state (which it prints only once)
+                cur = [k[0]]
+            else:
+                raise ToolError("TLC simulation output of %s is not a sequence of behaviours" % u)
+            prev = set(k)
+        traces.append(cur)
+        traces = [t for i, t in enumerate(traces) if t and t not in traces[:i]]
+        d = os.path.dirname(logp)
+        tpath = os.path.join(d, "table.json")
+        json.dump({"us": us["us"], "states": list(states.values()), "patterns": [], "traces": traces}, open(tpath, "w"))
+        upath = os.path.join(d, "universe.json")
+        uni2 = dict(uni, name=u + "sim")
+        json.dump(uni2, open(upath, "w"))
+        st["universe_terms"] = us["n"]
+        st["distinct"] = len(states)
+        st["generated"] = len(recs)
+        st["ok"] = True
+        st["histories"] = len(traces)
+        st["equations_per_history"] = depth
+        return u + "sim", (uni2, tpath, st, list(states.values()), upath)
+
+    out = {}
+    t0 = time.time()
+    with concurrent.futures.ThreadPoolExecutor(max_workers=6) as ex:
+        for k, v in ex.map(one, SIM[tier].items()):
+            out[k] = v
+    log("TLC simulation: %d long histories (%s), %d states, %.1fs" %
+        (sum(v[2]["histories"] for v in out.values()), ", ".join("%s: %d x %d eqs" % (k, v[2]["histories"], v[2]["equations_per_history"]) for k, v in out.items()),
+         sum(v[2]["distinct"] for v in out.values()), time.time() - t0))
     return out
 
 
@@ -225,6 +292,8 @@ def collect_cc(prop, tier):
     namings = "all" if prop == "C11" else "rotate"
     # C04 / C05: TLC also emits the complete expected match sets of the pattern pool (EMatch.tla)
     tables = cc_tables(tier, prop, with_matches=prop in ("C04", "C05"))
+    if prop not in ("C04", "C11"):
+        tables.update(sim_tables(tier, prop))
     findings, summaries = [], []
     for variant in variants:
         for u, (uni, tpath, st, states, upath) in tables.items():
